@@ -81,6 +81,7 @@ func init() {
 			"Not decided: arithmetic of region splitting/merging, meta-area growth sizes, exactness of the partition.",
 		run: func(p *Program, rep *Report, tier string) {
 			g(rep, "FILE-END-AGREE", func() { ruleFILEENDAGREE(p, rep) })
+			g(rep, "DATA-END-SKIPS-OVERFLOW", func() { ruleDATAENDSKIPSOVERFLOW(p, rep) })
 			g(rep, "REGION-CODEC", func() { ruleREGIONCODEC(p, rep) })
 			g(rep, "DEFERFREE", func() { ruleDEFERFREE(p, rep) })
 			g(rep, "ALLOC-RECORDED", func() { ruleALLOCRECORDED(p, rep) })
@@ -246,6 +247,7 @@ func init() {
 			g(rep, "TRUNCATE-COVERS", func() { ruleTRUNCATECOVERS(p, rep) })
 			g(rep, "MAXSIZE-DECISION", func() { ruleMAXSIZEDECISION(p, rep) })
 			g(rep, "MMAP-COVERS-FILE", func() { ruleMMAPCOVERSFILE(p, rep) })
+			g(rep, "DATA-END-SKIPS-OVERFLOW", func() { ruleDATAENDSKIPSOVERFLOW(p, rep) })
 		},
 	})
 	register(&propertyDef{
